@@ -128,6 +128,18 @@ def run_case(ctx, case):
     for i, s in enumerate(case["fuzzy"]):
         arr.standin(prog, "F%d" % i, arr.build(s), fuzzy=True)
         pool["fuzzy"].append("F%d" % i)
+    if libs == "nc" and case["rseed"] % 2 == 0:
+        # an unsigned result, as NetCDF 'Positive Integer' reads produce
+        arr.standin(prog, "Nu", numpy.ma.array(numpy.abs(numpy.ma.getdata(arr.build(case["nonfuzzy"][0]))).astype("uint64")), fuzzy=False)
+        pool["nonfuzzy"].append("Nu")
+    if case["rseed"] % 3 == 0:
+        # the same cells with an extra length-1 axis: consumers must reject the mix (MixedArrayShapes) and touch nothing
+        a0 = arr.build(case["nonfuzzy"][0])
+        arr.standin(prog, "Nx", a0.reshape(a0.shape + (1,)).copy(), fuzzy=False)
+        pool["nonfuzzy"].append("Nx")
+        f0 = arr.build(case["fuzzy"][0])
+        arr.standin(prog, "Fx", f0.reshape((1,) + f0.shape).copy(), fuzzy=True)
+        pool["fuzzy"].append("Fx")
     recorded = _digests(prog)
     seqnames = []
     template = None
